@@ -240,7 +240,29 @@ def main(argv=None):
         print("CHECKER-ERROR property=%s no cases generated" % prop)
         return 3
     jobs = max(1, min(a.jobs, len(tasks)))
+    sigdir = None
+    if a.update_lock:
+        # record the parameter lists of the private functions the scenarios enter by (see engine.signature_guard)
+        import tempfile
+
+        sigdir = tempfile.mkdtemp(prefix="sigs-", dir=os.path.join(HERE, ".tmp") if os.path.isdir(os.path.join(HERE, ".tmp")) else None)
+        os.environ["ROPTVC_RECORD_SIGNATURES"] = sigdir
     outs = run_tasks(tasks, jobs, int(os.environ.get("ROPTVC_CASE_TIMEOUT_S", "600" if tier == "quick" else "1800")))
+    if sigdir:
+        import shutil
+
+        os.environ.pop("ROPTVC_RECORD_SIGNATURES", None)
+        sig_path = os.path.join(HERE, "contracts", "SIGNATURES.lock.json")
+        sigs = json.load(open(sig_path)) if os.path.exists(sig_path) else {}
+        for fn in os.listdir(sigdir):
+            for line in open(os.path.join(sigdir, fn)):
+                try:
+                    k, v = json.loads(line)
+                    sigs[k] = v
+                except ValueError:
+                    pass
+        json.dump(sigs, open(sig_path, "w"), indent=1, sort_keys=True)
+        shutil.rmtree(sigdir, ignore_errors=True)
 
     # ---- aggregate
     errors = [o for o in outs if o["error"]]
